@@ -218,7 +218,8 @@ func acceptLayers(tier string) []Layer {
 		}
 	}
 	return []Layer{
-		{Name: "large", Kinds: Kinds, CfgsFn: largeConfigs, Inputs: LargeSet(140000), Bound: 0, CfgPerShard: 1},
+		{Name: "large", Kinds: HashKinds, CfgsFn: largeConfigs, Inputs: LargeSet(140000), Bound: 0, CfgPerShard: 1},
+		{Name: "large-sa", Kinds: []string{"GSAP", "OSAP"}, CfgsFn: largeConfigs, Inputs: LargeSet(70000), Bound: 0, CfgPerShard: 1},
 		{Name: "hash", Kinds: HashKinds, BufSizes: []int{2, 3, 5, 8}, Level: 2, Inputs: Union(Binary(7), ZeroA(4)), Bound: 1},
 		{Name: "hash-long", Kinds: HashKinds, BufSizes: []int{16}, Level: 2, Inputs: FewLong(33), Bound: 1},
 		{Name: "sa", Kinds: sa, BufSizes: []int{2, 3, 5, 8}, Level: 0, Inputs: Binary(5), Bound: 1},
